@@ -125,6 +125,16 @@ BodyCases ==
     LET body == BodyOf(j) fns == BodyFns(Vals[j]) IN
     [f \in 1..Len(fns) |-> [kind |-> "body", fn |-> fns[f], len |-> Len(body), bytes |-> body, val |-> j, extra |-> 0]]])
 
+(* the body parsers that find their own end (no length argument), followed by bytes: value and consumption as the specification says *)
+BodySfxCases ==
+  Concat([j \in 1..Len(Vals) |->
+    LET body == BodyOf(j) fns == BodyFns(Vals[j]) IN
+    IF Len(body) > 400 \/ j % 2 = 1 THEN <<>> ELSE
+    Concat([f \in 1..Len(fns) |->
+      IF fns[f] \in {"parse_tls_handshake_msg_newsessionticket", "parse_tls_handshake_msg_serverkeyexchange", "parse_tls_handshake_msg_serverdone",
+                     "parse_tls_handshake_msg_certificateverify", "parse_tls_handshake_msg_clientkeyexchange", "parse_tls_handshake_msg_finished"} THEN <<>>
+      ELSE << [kind |-> "bodysfx", fn |-> fns[f], len |-> Len(body), bytes |-> body \o <<9>>, val |-> j, extra |-> 1],
+              [kind |-> "bodysfx", fn |-> fns[f], len |-> Len(body), bytes |-> body \o <<0, 0, 1, 0, 0, 2>>, val |-> j, extra |-> 6] >>])])
 SmallIdx == TLCGet(4)
 (* every mandatory field cut off by a shortened hl: type, hl = k, the first k bytes of the body *)
 CutCases ==
@@ -192,7 +202,7 @@ LenArgCases ==
     Concat([l \in 1..8 |->
       [k \in 1..10 |-> [kind |-> "lenarg", fn |-> LenFns[f], len |-> l - 1, bytes |-> Fill(f + l, k - 1), val |-> 0, extra |-> 0]]])])
 ASSUME TLCSet(4, SelectSeq([j \in 1..Len(Vals) |-> j], LAMBDA j : Len(BodyOf(j)) <= (IF Thorough THEN 400 ELSE 120) /\ (Thorough \/ j % 3 = 0)))
-ASSUME TLCSet(1, MsgCases \o LongTailCases \o LenArgCases \o BodyCases \o CutCases \o HlCases \o RejectCases \o UnknownTypeCases \o LenientCases)
+ASSUME TLCSet(1, MsgCases \o LongTailCases \o LenArgCases \o BodySfxCases \o BodyCases \o CutCases \o HlCases \o RejectCases \o UnknownTypeCases \o LenientCases)
 Cases == TLCGet(1)
 V(j) == TLCGet(2)[j]
 N == Len(Cases)
@@ -234,7 +244,7 @@ WithinDeclared ==
 
 Pin ==
   LET c == Cases[i] IN
-  IF c.kind \in {"enc", "body"} \/ (c.kind = "lenarg" /\ res.k = "ok") THEN "full"
+  IF c.kind \in {"enc", "body"} \/ (c.kind \in {"lenarg", "bodysfx"} /\ res.k = "ok") THEN "full"
   (* a malformed but COMPLETE message is an error, not a request for more bytes (a caller would wait, a defragmenter buffer): *)
   (* where the specification answers with an error the class is pinned, not only the absence of a value                       *)
   ELSE IF res.k \in {"err", "fail"} THEN "reject"
